@@ -35,14 +35,18 @@ func Main(domain string, run func(*Ctx)) {
 		}
 		ctx.Replay = b
 	}
-	run(ctx)
-	res := ctx.Finish()
-	b, _ := json.MarshalIndent(res, "", " ")
-	if *out == "" {
-		os.Stdout.Write(b)
-		fmt.Println()
-	} else if err := os.WriteFile(*out, b, 0o644); err != nil {
-		fmt.Fprintln(os.Stderr, err)
-		os.Exit(2)
+	finish := func() {
+		res := ctx.Finish()
+		b, _ := json.MarshalIndent(res, "", " ")
+		if *out == "" {
+			os.Stdout.Write(b)
+			fmt.Println()
+		} else if err := os.WriteFile(*out, b, 0o644); err != nil {
+			fmt.Fprintln(os.Stderr, err)
+			os.Exit(2)
+		}
 	}
+	ctx.Abort = func() { finish(); os.Exit(0) }
+	run(ctx)
+	finish()
 }
